@@ -13,6 +13,7 @@ NEXT Next
 INVARIANT LossIsBudget
 INVARIANT CdLinear
 INVARIANT LatencyLinear
+INVARIANT CdFromConfig
 INVARIANT PmdQuadrature
 INVARIANT PdlQuadrature
 INVARIANT OrderIndependent
